@@ -176,7 +176,7 @@ Theorem py_traph_remove_rule_spec : forall s, Inv18 s -> root_first s -> forall 
   end.
 Proof.
   intros s Hinv Hroot rm sg p [Hrr Hrd] Hrep Hp r. unfold r, remove_rule, py_traph_remove_webentity_creation_rule.
-  rewrite py_rules_get_eq, Hrr.
+  rewrite (py_rules_get_eq p (ram_rules rm)), Hrr.
   destruct (aget p (rules s)) as [k|]; [|reflexivity].
   cbv zeta. cbn [tr].
   destruct (lru_node_full s Hinv Hroot sg p Hrep Hp) as (sg1 & Hrep1 & _ & H).
@@ -194,7 +194,136 @@ Proof.
                 (soft_set_rule false) (fun _ => eq_refl) Ef Hrep1 Hex Hblk Hd2 Hst2)
       as (sg2 & Ew & Hrep2 & _).
     rewrite Ew. eexists. exists sg2. split; [reflexivity|]. split.
-    + split; cbn [ram_rules ram_dflt]; [rewrite py_rules_del_eq, Hrr|rewrite Hrd]; reflexivity.
+    + split; cbn [ram_rules ram_dflt]; [rewrite (py_rules_del_eq p (rules s))|rewrite Hrd]; reflexivity.
     + exact Hrep2.
   - cbn [snd]. rewrite H. reflexivity.
 Qed.
+
+Print Assumptions py_traph_get_potential_prefix_spec.
+Print Assumptions py_traph_get_potential_prefix_spec'.
+Print Assumptions py_traph_get_potential_prefix_reach.
+Print Assumptions py_traph_remove_rule_spec.
+
+(* ====================================================================================== *)
+(* 7. non-vacuity                                                                         *)
+(* ====================================================================================== *)
+From Traph Require PropsEx IdFacts GenTraphWFacts GenTraphPEx.
+
+Definition rm0 : py_ram := mk_ram (rules PropsEx.exs) (dflt PropsEx.exs).
+Definition rm3 : py_ram := GenTraphPEx.rm_of GenTraphPEx.exs3.
+Definition sg3 : py_pm := GenTraphPEx.sg_of GenTraphPEx.exs3.
+
+(* the answer of the translated query, and whether the bytes are those before *)
+Definition run_potential (rm : py_ram) (sg : py_pm) (lru : bytes) : option (option bytes * bool) :=
+  match py_traph_get_potential_prefix rm sg lru with
+  | Some (sg', a) => Some (a, Bytes.beq (pm_array sg') (pm_array sg))
+  | None => None
+  end.
+
+(* a page on an unknown domain: the default rule proposes s:http|h:org|h:z| *)
+Example ex_potential_default :
+  run_potential rm0 ex_sg GenTraphPEx.l1 = Some (Some GenTraphPEx.org_z, true) /\
+  potential_prefix GenTraphPEx.l1 PropsEx.exs = Some GenTraphPEx.org_z.
+Proof. vm_compute. split; reflexivity. Qed.
+
+(* a page under an existing webentity: its prefix *)
+Example ex_potential_known :
+  run_potential rm0 ex_sg PropsEx.ex_pxy = Some (Some PropsEx.ex_px, true) /\
+  potential_prefix PropsEx.ex_pxy PropsEx.exs = Some PropsEx.ex_px.
+Proof. vm_compute. split; reflexivity. Qed.
+
+(* nothing proposed: a LRU the default rule (domain) does not match -> False *)
+Example ex_potential_false :
+  run_potential rm0 ex_sg [115;58;104;116;116;112;124] = Some (None, true) /\
+  potential_prefix [115;58;104;116;116;112;124] PropsEx.exs = None.
+Proof. vm_compute. split; reflexivity. Qed.
+
+(* the anchored rule "first path stem" on s:http|h:com|h:a| proposes s:http|h:com|h:a|p:w| for ...|p:w|p:v| *)
+Example ex_potential_anchored :
+  run_potential rm3 sg3 GenTraphPEx.l3 = Some (Some GenTraphPEx.pa_w, true) /\
+  potential_prefix GenTraphPEx.l3 GenTraphPEx.exs3 = Some GenTraphPEx.pa_w /\
+  h_rules (q_follow GenTraphPEx.l3 GenTraphPEx.exs3) = [17] /\
+  ram_rules rm3 = [(IdFacts.ex_pa, Path 1)].
+Proof. vm_compute. repeat split; reflexivity. Qed.
+
+(* the removal of that rule: the bytes are the trie file of the model's next state (and did change), the RAM entry is gone *)
+Definition run_remove (s : traph) (p : bytes) : option (list (bytes * rulekind) * bool * bool * bool) :=
+  match py_traph_remove_webentity_creation_rule (GenTraphPEx.rm_of s) (GenTraphPEx.sg_of s) p with
+  | Some (rm', sg', b) =>
+      Some (ram_rules rm', b, Bytes.beq (pm_array sg') (trie_file (fst (remove_rule p s))),
+            Bytes.beq (pm_array sg') (pm_array (GenTraphPEx.sg_of s)))
+  | None => None
+  end.
+
+Example ex_remove_anchored :
+  run_remove GenTraphPEx.exs3 IdFacts.ex_pa = Some ([], true, true, false) /\
+  snd (remove_rule IdFacts.ex_pa GenTraphPEx.exs3) = Ok /\
+  rules (fst (remove_rule IdFacts.ex_pa GenTraphPEx.exs3)) = [] /\
+  option_map rule (nodeof GenTraphPEx.exs3 IdFacts.ex_pa) = Some true /\
+  option_map rule (nodeof (fst (remove_rule IdFacts.ex_pa GenTraphPEx.exs3)) IdFacts.ex_pa) = Some false.
+Proof. vm_compute. repeat split; reflexivity. Qed.
+
+(* after the removal the anchor no longer fires: the existing webentity prefix is proposed again *)
+Example ex_potential_after_removal :
+  let s' := fst (remove_rule IdFacts.ex_pa GenTraphPEx.exs3) in
+  run_potential (GenTraphPEx.rm_of s') (GenTraphPEx.sg_of s') GenTraphPEx.l3 = Some (potential_prefix GenTraphPEx.l3 s', true) /\
+  potential_prefix GenTraphPEx.l3 s' = Some IdFacts.ex_pa.
+Proof. vm_compute. split; reflexivity. Qed.
+
+(* an unknown anchor: KeyError / Crash *)
+Example ex_remove_unknown :
+  run_remove GenTraphPEx.exs3 PropsEx.ex_px = None /\ snd (remove_rule PropsEx.ex_px GenTraphPEx.exs3) = Crash /\
+  run_remove PropsEx.exs IdFacts.ex_pa = None /\ snd (remove_rule IdFacts.ex_pa PropsEx.exs) = Crash.
+Proof. vm_compute. repeat split; reflexivity. Qed.
+
+(* a rule kept in RAM only (write_in_trie = False) on a prefix that is not in the trie: the RAM entry is deleted, then
+   TraphException / Refused *)
+Definition exs5 : traph := fst (add_rule GenTraphPEx.org_z Domain false PropsEx.exs).
+Example ex_remove_refused :
+  run_remove exs5 GenTraphPEx.org_z = None /\ snd (remove_rule GenTraphPEx.org_z exs5) = Refused /\
+  rules exs5 = [(GenTraphPEx.org_z, Domain)] /\ rules (fst (remove_rule GenTraphPEx.org_z exs5)) = [].
+Proof. vm_compute. repeat split; reflexivity. Qed.
+
+(* ---- the theorems instantiated: all their hypotheses hold on the examples ---- *)
+Lemma trep_sg_of : forall s, forallb GenTraphWFacts.blk_encodableb (ft (files_of s)) = true ->
+  trep (files_of s) (GenTraphPEx.sg_of s).
+Proof.
+  intros s Hall. apply (trep_of_file s 0). apply Forall_forall. intros b Hb. apply GenTraphWFacts.blk_encodableb_ok.
+  rewrite forallb_forall in Hall. apply Hall. exact Hb.
+Qed.
+
+Lemma exh3_no_reopen : Forall no_reopen GenTraphPEx.exh3.
+Proof. repeat constructor. Qed.
+
+Example ex_theorem_applies_potential :
+  exists sg', py_traph_get_potential_prefix rm3 sg3 GenTraphPEx.l3 = Some (sg', Some GenTraphPEx.pa_w) /\
+    pm_array sg' = pm_array sg3.
+Proof.
+  pose proof (py_traph_get_potential_prefix_reach Domain [] GenTraphPEx.exh3 PropsEx.ex_rules_wf GenTraphPEx.exh3_wf
+                (no_reopen_resupplied _ _ exh3_no_reopen)) as HA.
+  cbv zeta in HA. rewrite GenTraphPEx.exs3_run in HA.
+  assert (Hrep : trep (files_of GenTraphPEx.exs3) sg3) by (apply trep_sg_of; vm_compute; reflexivity).
+  assert (Hl : wf_lru GenTraphPEx.l3) by PropsEx.wf_lru_tac.
+  destruct (HA rm3 sg3 GenTraphPEx.l3 (GenTraphPEx.ramrep_of _) Hrep Hl) as (sg' & E & _ & Ha).
+  exists sg'. split; [|exact Ha].
+  assert (Er : potential_prefix GenTraphPEx.l3 GenTraphPEx.exs3 = Some GenTraphPEx.pa_w) by (vm_compute; reflexivity).
+  rewrite <- Er. exact E.
+Qed.
+
+Example ex_theorem_applies_remove :
+  exists rm' sg', py_traph_remove_webentity_creation_rule rm3 sg3 IdFacts.ex_pa = Some (rm', sg', true) /\
+    ramrep (fst (remove_rule IdFacts.ex_pa GenTraphPEx.exs3)) rm' /\
+    trep (files_of (fst (remove_rule IdFacts.ex_pa GenTraphPEx.exs3))) sg'.
+Proof.
+  assert (Hinv : Inv18 GenTraphPEx.exs3) by (rewrite <- GenTraphPEx.exs3_run; apply run_Inv18; exact GenTraphPEx.exh3_wf).
+  assert (Hroot : root_first GenTraphPEx.exs3) by (rewrite <- GenTraphPEx.exs3_run; apply run_root_first).
+  assert (Hrep : trep (files_of GenTraphPEx.exs3) sg3) by (apply trep_sg_of; vm_compute; reflexivity).
+  assert (Hp : wf_lru IdFacts.ex_pa) by PropsEx.wf_lru_tac.
+  pose proof (py_traph_remove_rule_spec GenTraphPEx.exs3 Hinv Hroot rm3 sg3 IdFacts.ex_pa (GenTraphPEx.ramrep_of _) Hrep Hp) as HA.
+  cbv zeta in HA.
+  assert (Er : snd (remove_rule IdFacts.ex_pa GenTraphPEx.exs3) = Ok) by (vm_compute; reflexivity).
+  rewrite Er in HA. exact HA.
+Qed.
+
+Print Assumptions ex_theorem_applies_potential.
+Print Assumptions ex_theorem_applies_remove.
